@@ -128,6 +128,10 @@ def run(repo, tier):
     out += dp_rules(fi)
     out += offset_rules(repo, fi)
     out += dp_complete_rule(fi)
+    from ..rules import loop_headers_rule
+    out += loop_headers_rule(fi, ["range(l)", "range(n)", "range(n)", "range(1, l)", "range(largest - smallest + 1)", "enumerate(old_logpdf)",
+                                  "range(n)", "range(largest - smallest + 1)", "range(len(logpdf) - 2, -1, -1)"], "DP",
+                             "every column, character and score bin is visited by the dynamic programme (loop extents)")
     from ..rules import module_state_rule
     out += module_state_rule(repo, F)
     return out
